@@ -47,6 +47,7 @@ var (
 	outDir  = flag.String("out", "", "output directory")
 	modfile = flag.String("modfile", "", "alternative go.mod (scratch copies)")
 	engineDir = flag.String("engine", "/verif/engine", "engine module directory (packages are resolved from there)")
+	verifDir  = flag.String("verif", "/verif", "verification tree root")
 )
 
 const repoMod = "github.com/openfga/language/pkg/go"
@@ -275,6 +276,28 @@ func instrMaps(p *packages.Package, f *ast.File, fe *fileEdits, strict bool) []s
 }
 
 func ordered(t types.Type) bool {
+	if tp, ok := t.(*types.TypeParam); ok {
+		// a type parameter is ordered if every term of its constraint is
+		iface, ok := tp.Constraint().Underlying().(*types.Interface)
+		if !ok || iface.NumEmbeddeds() == 0 {
+			return false
+		}
+		for i := 0; i < iface.NumEmbeddeds(); i++ {
+			switch e := iface.EmbeddedType(i).(type) {
+			case *types.Union:
+				for j := 0; j < e.Len(); j++ {
+					if !ordered(e.Term(j).Type()) {
+						return false
+					}
+				}
+			default:
+				if !ordered(e) {
+					return false
+				}
+			}
+		}
+		return true
+	}
 	b, ok := t.Underlying().(*types.Basic)
 	if !ok {
 		return false
